@@ -3,9 +3,10 @@
 seed=$1; tier=$2; shift 2
 ids="$@"; [ -z "$ids" ] && ids="C01 C02 C03 C04 C05 C06 C07 C08 C09 C10 C11 C12 C13 C14 C15 C16 C17 C18 C19 C20"
 cd /verif
+noev=; [ "$seed" != 1 ] && noev=1
 for id in $ids; do
   s=$(date +%s)
-  out=$(VERIF_SEED=$seed timeout 7200 python3 -m vf.check $id --tier $tier 2>&1)
+  out=$(VERIF_NO_EVIDENCE=${VERIF_NO_EVIDENCE-$noev} VERIF_SEED=$seed timeout 7200 python3 -m vf.check $id --tier $tier 2>&1)
   rc=$?
   e=$(date +%s)
   echo "seed=$seed $id rc=$rc $((e-s))s :: $(echo "$out" | grep -E "^(C[0-9]+ |VIOLATION|INCONC|HARNESS|KNOWN)" | head -3 | tr '\n' '|' | cut -c1-400)"
